@@ -82,6 +82,8 @@ THEOREMS = [
     'C01.ctor_refuses_iff', 'C01.ctor_rebuild_any', 'C01.define_right_angles',
     # read-back of what was given for every parameter set, uniqueness of the definition, angles in degrees vs the unit of length
     'C01.raw_readback', 'C01.raw_definition_unique', 'C01.lenOf_scale', 'C01.angleDeg_scale',
+    # statement audit: the six getters a b c alpha beta gamma in one statement (lengths and angles of the vectors)
+    'C01.lenOf_sq', 'C01.lenOf_pos', 'C01.abc_getters_spec',
 ]
 PARTIAL = {
     'rounding': 'theorems are exact (field / real-number) statements: lengths, angles IN DEGREES and both square roots are now inside the '
